@@ -22,6 +22,26 @@ Theorem C05_sound : forall single ext tight ops c s,
   protected s c = true -> granted c = true -> proved c.
 Proof. exact sound_fixed. Qed.
 
+(* wire level: the same for what the client has been TOLD.  c_told logs every SecurityResult OK /
+   failed / ServerInit written ([say] appends bytes and token together, C05_told_coupled): a client of a
+   protected screen that has been told OK or been given ServerInit has proved the password, also when
+   the connection has been closed since. *)
+Theorem C05_sound_wire : forall single ext tight ops c s,
+  let p := run (cfgF single ext tight) proc_init ops in
+  In c (p_conns p) -> nth_error (p_screens p) (c_screen c) = Some s ->
+  protected s c = true -> told_in c -> proved c.
+Proof. exact sound_wire_fixed. Qed.
+
+Theorem C05_told_coupled : forall c t b, c_out (say c t b) = c_out c ++ b /\ c_told (say c t b) = c_told c ++ [t].
+Proof. exact say_coupled. Qed.
+
+(* soundness is not obtained by the totalisation of the mirror: on every trace whose operations name
+   existing screens / connections / handler objects the error flag (fuel or index exhaustion, which
+   would close a client where C does not) is never raised.  Bound: four application handler types. *)
+Theorem C05_no_error_flag_4handlers : forall single ext tight ops, length ext = 4%nat ->
+  valid_run (cfgF single ext tight) proc_init ops -> p_err (run (cfgF single ext tight) proc_init ops) = false.
+Proof. exact no_err_fixed. Qed.
+
 (* the password set recorded for a connection is the one of its screen when the response is handled *)
 Theorem C05_password_snapshot : forall cf s e c resp e' c',
   on_response cf s e c resp = (e', c') -> c_pws c' = screen_passwords s /\ c_resp c' = Some resp.
@@ -29,7 +49,7 @@ Proof. exact on_response_snapshot. Qed.
 
 (* ---- completeness under arbitrary activity of other connections, screens AND of the application
    (registering / unregistering handlers of any non-built-in type between the client's messages) *)
-Theorem C05_complete : forall single ext tight p0 s scr pw ver mi tr1 tr2 tr3 b,
+Theorem C05_complete_4handlers : forall single ext tight p0 s scr pw ver mi tr1 tr2 tr3 b,
   acyc (p_hs p0) = true -> ext_ok ext -> nth_error (p_screens p0) s = Some scr -> has_password scr = true ->
   In pw (screen_passwords scr) ->
   length ver = 12%nat -> parse_version ver = Some (c05_rfbProtocolMajorVersion, mi) -> (7 <= mi)%Z ->
@@ -48,7 +68,7 @@ Theorem C05_complete : forall single ext tight p0 s scr pw ver mi tr1 tr2 tr3 b,
     c_out c = server_version ++ (N.of_nat (length tl) :: map zbyte tl) ++ ch ++ auth_ok ++ server_init scr.
 Proof. exact complete_fixed. Qed.
 
-Theorem C05_complete_33 : forall single ext tight p0 s scr pw ver mi tr2 tr3 b,
+Theorem C05_complete_33_4handlers : forall single ext tight p0 s scr pw ver mi tr2 tr3 b,
   acyc (p_hs p0) = true -> nth_error (p_screens p0) s = Some scr -> has_password scr = true ->
   In pw (screen_passwords scr) ->
   length ver = 12%nat -> parse_version ver = Some (c05_rfbProtocolMajorVersion, mi) -> (mi < 7)%Z ->
@@ -67,7 +87,7 @@ Proof. exact complete_fixed_33. Qed.
 
 (* the world of C05_complete ([acyc]) is the world of EVERY trace, any cfg: no restriction on the
    application *)
-Theorem C05_complete_world : forall cf tr p, acyc (p_hs p) = true -> acyc (p_hs (run cf p tr)) = true.
+Theorem C05_complete_world_4handlers : forall cf tr p, acyc (p_hs p) = true -> acyc (p_hs (run cf p tr)) = true.
 Proof. exact run_acyc. Qed.
 
 Theorem C05_response_defined : forall pw chal, length chal = 16%nat ->
@@ -76,15 +96,15 @@ Proof. exact vnc_encrypt_some. Qed.
 
 (* ---- the global handler list with application handlers: fuel and sanity (finite sweep over all
    7^7 stores of six handler objects, both unregister variants; bound: four application objects) *)
-Theorem C05_list_fuel_suffices : forall single st, acyc st = true -> store_ok single st = true.
+Theorem C05_list_fuel_suffices_4handlers : forall single st, acyc st = true -> store_ok single st = true.
 Proof. exact acyc_store_ok. Qed.
 
-Theorem C05_offer_registers_own_type : forall single st primary, acyc st = true -> is_prim primary ->
+Theorem C05_offer_registers_own_type_4handlers : forall single st primary, acyc st = true -> is_prim primary ->
   exists st', offer_store single st primary = Some st' /\ acyc st' = true /\
               hs_member LIST_FUEL st' (h_head st') (prim_id primary) = Some true.
 Proof. exact acyc_offer. Qed.
 
-Theorem C05_own_type_honoured : forall ext f st cur primary,
+Theorem C05_own_type_honoured_4handlers : forall ext f st cur primary,
   ext_ok ext -> is_prim primary -> hs_member f st cur 99 = Some false -> length (h_next st) = NHANDLERS ->
   forall fuel, (f <= fuel)%nat ->
   hs_find fuel (htypes ext) false st cur primary primary = Some (builtin_sel primary).
@@ -121,7 +141,7 @@ Theorem C05_versions_33 : forall cf scr e c ver mi,
        c_out c' = c_out c ++ be32 (Z.to_N c05_rfbSecTypeVncAuth) ++ fst (take_rand (e_rand e) 16)).
 Proof. exact versions_33. Qed.
 
-Theorem C05_versions_37 : forall single ext tight scr e c ver mi,
+Theorem C05_versions_37_4handlers : forall single ext tight scr e c ver mi,
   c_st c = StPV -> parse_version ver = Some (c05_rfbProtocolMajorVersion, mi) -> (7 <= mi)%Z ->
   acyc (e_hs e) = true -> length ext = 4%nat ->
   exists e' c' tl, on_message (cfgF single ext tight) scr e c ver = (e', c', false) /\ c_minor c' = mi /\ c_st c' = StSec /\
@@ -188,6 +208,35 @@ Theorem C05_tight_negotiation :
   map c_st (p_conns (run tight_cfg proc_init (tight_trace [0;0;0;2]%N demo_chal))) = [StClosed] /\
   map c_st (p_conns (run tight_cfg proc_init (tight_trace [0;0;0;2]%N []))) = [StClosed].
 Proof. exact tight_negotiation. Qed.
+
+(* ---- UDP input channel (screen->udpPort): with notes/fix_C05_4.diff (which cfgF has) no input event
+   reaches the application of a screen that requires a password, on any trace; the code as of /repo
+   HEAD (cfgU) hands a datagram of a peer that proved nothing to kbdAddEvent *)
+Theorem C05_udp_input_gated : forall single ext tight ops s scr,
+  let p := run (cfgF single ext tight) proc_init ops in
+  In s (p_input p) -> nth_error (p_screens p) s = Some scr -> has_password scr = false.
+Proof. exact udp_gated_fixed. Qed.
+
+Theorem C05_udp_input_refuted :
+  exists ops s scr, let p := run (cfgU true default_ext false) proc_init ops in
+    In s (p_input p) /\ nth_error (p_screens p) s = Some scr /\ has_password scr = true /\ p_conns p = [].
+Proof. exact udp_input_refuted. Qed.
+
+(* universally quantified completeness of the nested TightVNC path: any process state in which the
+   lookup of type 16 finds the library's handler, any protected screen, configured password, challenge
+   and protocol minor version *)
+Theorem C05_tight_complete : forall single ext tight p ci c scr pw r,
+  tight = true ->
+  nth_error (p_conns p) ci = Some c -> nth_error (p_screens p) (c_screen c) = Some scr ->
+  c_st c = StSec -> protected scr c = true ->
+  hs_find LIST_FUEL (htypes ext) false (p_hs p) (h_head (p_hs p)) 16 (primary_type scr c) = Some (HExt 2) ->
+  In pw (screen_passwords scr) ->
+  let ch := fst (take_rand (p_rand p) 16) in
+  vnc_encrypt pw ch = Some r ->
+  let p' := step (cfgF single ext tight) p (OSend ci ([16%N] ++ be32 (Z.to_N c05_rfbSecTypeVncAuth) ++ r) false) in
+  exists c', nth_error (p_conns p') ci = Some c' /\ c_st c' = StInit /\ told_in c' /\ c_resp c' = Some r /\
+             c_out c' = c_out c ++ be32 0 ++ (be32 1 ++ tight_vnc_cap) ++ ch ++ auth_ok.
+Proof. exact tight_complete. Qed.
 
 (* ---- reference cipher *)
 Theorem C05_des_known_answers :
